@@ -424,3 +424,5 @@ PROPS["C13"]["floors"]["any"]["recorded_equalities_rechecked"] = 100000
 for _p in ("C01", "C02"):
     PROPS[_p]["quick"].append({"variant": "default", "cases": 5000, "params": {"profile": "mix", "analysis": 1}, "timeout": 600})
     PROPS[_p]["thorough"].append({"variant": "default", "cases": 150000, "params": {"profile": "mix", "analysis": 1}, "timeout": 3000})
+# C03 swapped-pair family (C03j): a two-parameter subterm next to its copy with the parameters exchanged, under repeated-variable rules
+PROPS["C03"]["floors"]["any"]["runs_swapped_pair"] = 200
